@@ -4,6 +4,7 @@ import (
 	"fmt"
 	"runtime"
 	"strings"
+	"testing/synctest"
 	"time"
 	"unsafe"
 
@@ -19,13 +20,15 @@ const (
 	ptTxnEdge  uint8 = 23 // between two transactions (nothing held)
 	ptDiskIO   uint8 = 24 // unused by the scheduler, reserved
 	ptLinkWait uint8 = 25 // applier waiting for a delayed commit
+	ptIdle     uint8 = 26 // the vacuum goroutine is back at its ticker
+	ptClock    uint8 = 27 // the clock pseudo-thread: picking it advances the fake clock
 	ptMax      uint8 = 32
 )
 
 var pointName = map[uint8]string{
 	1: "BeforeRLock", 2: "BeforeLock", 3: "AfterUnlock", 4: "MidCommit1", 5: "MidCommit2", 6: "MidCommit3",
 	7: "AfterReserve", 8: "KeyChecked", 9: "SnapshotPhase",
-	ptStart: "start", ptBetween: "betweenOps", ptInRead: "inRead", ptTxnEdge: "txnEdge", ptLinkWait: "linkWait",
+	ptStart: "start", ptBetween: "betweenOps", ptInRead: "inRead", ptTxnEdge: "txnEdge", ptLinkWait: "linkWait", ptIdle: "vacuumIdle", ptClock: "clockAdvance",
 }
 
 // Point is where a simulated thread is parked.
@@ -39,18 +42,21 @@ type Point struct {
 
 // Thread is one simulated thread: a real goroutine that runs only while it holds the baton.
 type Thread struct {
-	ID      int
-	Name    string
-	resume  chan struct{}
-	pt      Point
-	started bool
-	done    bool
-	body    func(*Thread)
-	prio    int
-	panicV  any
-	panicAt string
-	steps   int
-	role    string
+	ID          int
+	Name        string
+	resume      chan struct{}
+	pt          Point
+	started     bool
+	done        bool
+	body        func(*Thread)
+	prio        int
+	panicV      any
+	panicAt     string
+	steps       int
+	role        string
+	foreign     bool        // not started by the simulator: the collection's own vacuum goroutine
+	atPassStart bool        // foreign thread parked at the first hook of a new pass
+	inline      func() bool // pseudo-thread executed on the scheduler goroutine; returns false when finished
 }
 
 // Sim is the controlled scheduler. Exactly one simulated thread runs at any time; which one
@@ -79,6 +85,14 @@ type Sim struct {
 	onPick    func(t *Thread, enabled int)
 	watchdog  time.Duration
 	hung      string
+	// bubble mode (C17): the run executes inside a testing/synctest bubble; the scheduler
+	// detects "parked, finished or back at the ticker" with synctest.Wait and an inbox poll
+	bubble     bool
+	inspecting bool // the scheduler goroutine itself is running library code
+	vacuum     *Thread
+	onForeign  func(t *Thread, wasIdle bool)
+	gate       func(t *Thread) bool // extra enabledness condition decided by the world
+	onIdle     func(t *Thread)
 }
 
 func NewSim(rng *Rng, strategy string, replay []int16) *Sim {
@@ -165,6 +179,27 @@ func (s *Sim) WaitUntil(kind uint8, ready func() bool) {
 	s.park(Point{Kind: kind, Ready: ready})
 }
 
+// foreignArrive is called from a hook reached by a goroutine the simulator did not start
+// while no simulated thread is current: in bubble mode that is the collection's vacuum
+// goroutine, which becomes one more simulated thread parked at this hook.
+func (s *Sim) foreignArrive(pt Point) {
+	v := s.vacuum
+	if v == nil {
+		v = &Thread{ID: len(s.threads), Name: "vacuum", role: "vacuum", resume: make(chan struct{}), started: true, foreign: true}
+		v.pt = Point{Kind: ptIdle}
+		s.threads = append(s.threads, v)
+		s.vacuum = v
+	}
+	wasIdle := v.pt.Kind == ptIdle
+	s.hits[pt.Kind]++
+	v.pt = pt
+	v.atPassStart = wasIdle
+	if s.onForeign != nil {
+		s.onForeign(v, wasIdle)
+	}
+	<-v.resume
+}
+
 func (s *Sim) park(pt Point) {
 	s.hits[pt.Kind]++
 	if s.muted[pt.Kind] && pt.Ready == nil && enabledAt(pt) && pt.Kind != ptStart {
@@ -195,6 +230,8 @@ func rwState(p unsafe.Pointer) (readers int32, writer bool) {
 
 func enabledAt(pt Point) bool {
 	switch pt.Kind {
+	case ptIdle:
+		return false
 	case uint8(column.SimBeforeRLock):
 		if _, w := latchState(pt.Latch, pt.Arg); w {
 			return false
@@ -242,11 +279,11 @@ func (s *Sim) Run() error {
 		enabled = enabled[:0]
 		unfinished := 0
 		for _, t := range s.threads {
-			if t.done {
+			if t.done || (t.foreign && t.pt.Kind == ptIdle) {
 				continue
 			}
 			unfinished++
-			if enabledAt(t.pt) {
+			if enabledAt(t.pt) && (s.gate == nil || s.gate(t)) {
 				enabled = append(enabled, t)
 			}
 		}
@@ -272,7 +309,18 @@ func (s *Sim) Run() error {
 			s.onPick(t, len(enabled))
 		}
 		s.last = t
+		if t.inline != nil {
+			// pseudo-thread (clock): runs on the scheduler goroutine, no simulated thread is current
+			if !t.inline() {
+				t.done = true
+			}
+			if s.afterStep != nil {
+				s.afterStep(t)
+			}
+			continue
+		}
 		s.cur = t
+		t.atPassStart = false
 		if !t.started {
 			t.started = true
 			go s.threadMain(t)
@@ -292,6 +340,25 @@ func (s *Sim) Run() error {
 }
 
 func (s *Sim) await(t *Thread) error {
+	if s.bubble {
+		// returns when every other goroutine of the bubble is durably blocked; the fake
+		// clock does not advance
+		synctest.Wait()
+		select {
+		case <-s.inbox:
+			return nil
+		default:
+		}
+		if t.foreign {
+			// the vacuum finished its pass and is back at its ticker
+			t.pt = Point{Kind: ptIdle}
+			if s.onIdle != nil {
+				s.onIdle(t)
+			}
+			return nil
+		}
+		return &HangError{Desc: fmt.Sprintf("thread %s released at %s is blocked on something the simulator does not control", t.Name, pointName[t.pt.Kind]), InLock: true}
+	}
 	select {
 	case <-s.inbox:
 		return nil
